@@ -96,13 +96,14 @@ func init() {
 			c(false, false, false, "nsub", "nunsub"), c(false, true, false, "sub", "disc"), c(true, true, false, "unsub,sub", "nunsub"), c(false, true, true, "sub,unsub"),
 			withH(c(false, true, false, "sub,unsub,sub"), 6*time.Second),
 			withDelta(c(true, false, true, "unsub", "pub")), withDelta(c(true, false, false, "unsub", "pub")),
-			// a server-side subscribe held up beyond the 5 s wait gate of a client unsubscribe (preempted +
-			// timer first: two deviations), then a retry and a fresh subscribe before it resumes
-			withB(withH(c(false, false, false, "nsub", "unsub,unsub,sub"), 6*time.Second), 2),
 		},
 		thor: []connopsCfg{
 			c(false, true, false, "sub,unsub", "nsub"), c(true, false, false, "unsub", "nsub", "disc"), c(false, true, true, "sub,unsub", "pub"),
 			c(true, true, false, "unsub,sub", "nunsub", "nsub"), c(false, false, false, "nsub", "nunsub", "sub"), withH(c(false, true, false, "sub,unsub,sub", "nunsub"), 6*time.Second),
+			// a server-side subscribe held up beyond the 5 s wait gate of a client unsubscribe (preempted, timer
+			// first, reader preferred over the stalled thread: three deviations), then a retry and a fresh
+			// subscribe before it resumes; budget-capped
+			withB(withH(c(false, false, false, "nsub", "unsub,unsub,sub"), 6*time.Second), 3),
 		}})
 	connopsRegister(connopsSet{prop: "C10", qBound: 1, tBound: 2,
 		doc: "no publication / join / leave push for ch on A before the subscribe reply (or subscribe push) and none after the unsubscribe reply (or unsubscribe push) until a new bracket opens",
@@ -519,10 +520,17 @@ func connopsStep(op string, cfg connopsCfg, n *Node, act *vClient, publish func(
 	case "unsub":
 		// was the unsubscribe command issued while the subscribe was still in flight (it then
 		// parks on the wait gate) or after the commit? (read without locking: one thread runs)
+		// (decided by what the command did, not by the state before it: the command parked on a
+		// channel iff it found the reservation of an in-flight subscribe and waited on its gate)
+		inFlightBefore := false
 		if cc, ok := act.c.channels[ch]; ok && !channelHasFlag(cc.flags, flagSubscribed) {
+			inFlightBefore = true
+		}
+		waits := vsched.ChanBlocks()
+		act.unsubscribe(ch)
+		if inFlightBefore && vsched.ChanBlocks() > waits {
 			vConnopsUnsubInFlight = true
 		}
-		act.unsubscribe(ch)
 	case "nsub":
 		opts := []SubscribeOption{WithEmitPresence(cfg.presence), WithEmitJoinLeave(cfg.joinLeave), WithPushJoinLeave(true)}
 		if cfg.positioned {
